@@ -21,6 +21,9 @@ import z3
 from . import symx, loader
 
 VERIF = os.path.dirname(os.path.dirname(os.path.abspath(__file__)))
+# evidence and replay files go to $VERIF_OUT when set (used when a scratch copy
+# of the repository is checked, so that the committed evidence is not touched)
+OUT = os.environ.get('VERIF_OUT') or VERIF
 
 
 class H(object):
@@ -644,7 +647,7 @@ def finish(mod, prop, tier, seed, recs, extra, wall):
     n_viol = len(violations)
     violations = uniq[:40]
     for name, c in violations:
-        d = os.path.join(VERIF, 'replays', prop)
+        d = os.path.join(OUT, 'replays', prop)
         os.makedirs(d, exist_ok=True)
         blob = json.dumps({'property': prop, 'module': mod.__name__,
                            'tier': tier, 'obligation': name, 'case': c},
@@ -694,8 +697,8 @@ def finish(mod, prop, tier, seed, recs, extra, wall):
         },
     }
     ev['violations'] = n_viol
-    os.makedirs(os.path.join(VERIF, 'evidence'), exist_ok=True)
-    with open(os.path.join(VERIF, 'evidence', prop + '.json'), 'w') as f:
+    os.makedirs(os.path.join(OUT, 'evidence'), exist_ok=True)
+    with open(os.path.join(OUT, 'evidence', prop + '.json'), 'w') as f:
         json.dump(ev, f, indent=1, default=repr)
     print('%s %s: %d obligations, %d paths (%d feasible), %d claims, '
           '%d discharged, %d unknown, %d truncated, %d validated, '
